@@ -13,13 +13,14 @@ Zero == <<0, 0, 0, 0>>
 Check ==
   LET e == Rec[i] IN
   IF e.outcome # "ok" THEN PrintT(<<"BAD", i, e.id, "panic">>)
-  ELSE LET t == [m |-> e.ctm.m, mden |-> e.ctm.mden]
-           fl == FineLoops(e.ops, t, e.den)
+  ELSE LET quant == "floops" \in DOMAIN e       \* outline supplied by the harness's abstraction function
+           t == IF quant THEN [m |-> <<1, 0, 0, 1, 0, 0>>, mden |-> 1] ELSE [m |-> e.ctm.m, mden |-> e.ctm.mden]
+           fl == IF quant THEN [loops |-> e.floops, eps |-> e.feps] ELSE FineLoops(e.ops, t, e.den)
            cls == [k \in 1..(e.w * e.h) |-> ClassifyFill(fl, e.rule, (k - 1) % e.w, (k - 1) \div e.w)]
            badin == {k \in 1..(e.w * e.h) : cls[k] = "in" /\ e.pix[k] # White}
            badout == {k \in 1..(e.w * e.h) : cls[k] = "out" /\ e.pix[k] # Zero}
            nin == Cardinality({k \in 1..(e.w * e.h) : cls[k] = "in"})
-       IN IF ~DevExactFU(t, e.den) THEN PrintT(<<"SKIP", i, e.id>>)
+       IN IF ~quant /\ ~DevExactFU(t, e.den) THEN PrintT(<<"SKIP", i, e.id>>)
           ELSE IF badin # {} \/ badout # {} THEN PrintT(<<"BAD", i, e.id, badin, badout>>)
           ELSE (nin = 0) \/ PrintT(<<"NT", i, nin>>)
 =============================================================================
